@@ -68,7 +68,16 @@ def m_array_as_slice(it, a, ty, callee):
 
 
 def m_opaque_bytes(tag):
+    """Kademlia request builders: an opaque byte string for the query-engine units (whose keys are symbolic and whose
+    message contents are irrelevant); units that are about the messages themselves set `real_kad_messages` and get the
+    real encoder (prost-generated code over the prost runtime model)"""
     def f(it, a, ty, callee):
+        if int(it.params.get('real_kad_messages', 0)) == 1:
+            from .. import mir
+            name = it.resolve(mir.strip_generics(callee))
+            if name is None:
+                raise Inconclusive('cannot resolve ' + callee)
+            return it.call_body(it.bodies[name], list(a))
         return Atom('bytes', it.sym(tag, 32, internal=True))
     return f
 
